@@ -36,7 +36,7 @@ def run(tier):
     for (mode, tag), (events, bad) in results:
         total += len(events)
         for e in events:
-            if e["e"] == "ptrload":
+            if e["e"] in ("ptrload", "ptrloadrun"):
                 combos.add((tag, e["pos"], e["cls"]))
             elif e["e"] == "ptrchain":
                 combos.add((tag, e["chain"], e["cls"]))
